@@ -10,7 +10,10 @@ Streams
                     generated interleaving (one event per virtual-time slot, clock values with ties)
   direct_exhaustive all interleavings (thorough) / samples (quick) of six small concurrent programs
   direct_malformed  wire callbacks outside any request context (LookupError)
-  composite         one client: real AsyncExecutor -> Composite -> RequestTiming -> RawRequest/Sleep -> fake endpoint
+  composite         one client: real AsyncExecutor (on-error=continue) -> Composite -> RequestTiming -> RawRequest/Sleep -> fake
+                    endpoint; 40% of the clients see wire requests that FAIL (real ConnectionTimeout / ApiError 404, 503 /
+                    TransportError objects, raised after the end was recorded the way factory.py's on_request_exception hook
+                    does) at any position of a composite, also inside concurrent streams
   clients           2..4 clients in one loop (joint run) + every client alone (solo run): non-interference
 
 History: the oracle classes concurrent-children-exit-order / empty-child-context fired on the tree before fix 65587fe
@@ -50,7 +53,8 @@ ASSUMPTIONS = [
     "with-blocks: a task exits its request contexts in LIFO order",
     "client tasks are created where the context variable is unset (AsyncIoAdapter.run never opens a request context)",
     "structured concurrency inside a request: tasks created inside a request context finish before it exits (Composite.run_stream "
-    "awaits its sub-streams; its exception/cancellation path is out of scope)",
+    "awaits its sub-streams, since fix e1fd341 also on its exception/cancellation path; established by the correspondence and the "
+    "sample oracle, class cancelled-sibling-in-flight)",
 ]
 
 # regression classes of the defect fixed in 65587fe (witness cases in corpus/C18 are run first on every run)
@@ -59,6 +63,9 @@ CLS_EMPTY = "empty-child-context"
 CLS_SEQ = "span-sequential"
 CLS_SUB = "sub-request-inexact"
 CLS_LEAK = "client-leak"
+# a failed composite was recorded while sibling streams were still running (before fix e1fd341 Composite.run_stream neither
+# awaited nor - in its final gather - cancelled them): their earlier wire starts are missing from the sample
+CLS_INFLIGHT = "cancelled-sibling-in-flight"
 
 
 # ---------------------------------------------------------------------------------------------------------
@@ -165,6 +172,7 @@ class Recorder:
         self.late = False
         self.empty_close = False
         self.main = None
+        self.close_idx = {}   # ctx id -> index of its close event in self.events
 
     def tid(self, task):
         if task not in self.tasks:
@@ -233,7 +241,8 @@ class ProxyMgr:
         rec = self.rec
         s, e = self.real.request_start, self.real.request_end
         rec.reads.append({"ctx": self.cid, "start": q(s), "end": q(e)})
-        rec.events.append({"k": "close", "task": rec.tid(asyncio.current_task()), "ctx": self.cid})
+        rec.close_idx[self.cid] = len(rec.events)
+        rec.events.append({"k": "close", "task": rec.tid(asyncio.current_task()), "ctx": self.cid, "exc": bool(a and a[0] is not None)})
         p = rec.parent[self.cid]
         if p is not None:
             if any(rec.closed[a] for a in rec.ancestors(p)):
@@ -242,6 +251,29 @@ class ProxyMgr:
                 rec.empty_close = True
         rec.closed[self.cid] = True
         return self.real.__exit__(*a)
+
+
+FAIL_KINDS = ["timeout", "api404", "api503", "transport"]
+
+
+def make_exception(kind):
+    """real exception objects of elasticsearch-py / elastic_transport, as the real transport raises them"""
+    import elastic_transport
+    import elasticsearch
+
+    def meta(status):
+        return elastic_transport.ApiResponseMeta(status=status, http_version="1.1", headers=elastic_transport.HttpHeaders(), duration=0.0,
+                                                 node=elastic_transport.NodeConfig("http", "localhost", 9200))
+
+    if kind == "timeout":
+        return elasticsearch.ConnectionTimeout("Connection timed out")
+    if kind == "api404":
+        return elasticsearch.NotFoundError("index_not_found_exception", meta(404), {"error": "no such index"})
+    if kind == "api503":
+        return elasticsearch.ApiError("service unavailable", meta(503), b"unavailable")
+    if kind == "transport":
+        return elasticsearch.TransportError("transport broke")
+    raise HarnessError("unknown failure kind " + kind)
 
 
 def make_es(rec, client_id):
@@ -258,12 +290,13 @@ def make_es(rec, client_id):
         def options(self, **kw):
             return self
 
-        def _wire(self, is_start):
+        def _wire(self, is_start, failed=False):
             cur = rec.cur_ctx()
             t = _Clock.fn()
             task = rec.tid(asyncio.current_task())
+            rec.wires.append({"task": task, "cur": cur, "start": is_start, "t": Fraction(t), "op": self.op_of_task.get(task), "req": self.req,
+                              "client": client_id, "idx": len(rec.events), "failed": failed})
             rec.events.append({"k": "ws" if is_start else "we", "task": task, "t": q(t)})
-            rec.wires.append({"task": task, "cur": cur, "start": is_start, "t": Fraction(t), "op": self.op_of_task.get(task), "req": self.req, "client": client_id})
             if cur is not None and any(rec.closed[a] for a in rec.ancestors(cur)):
                 rec.late = True
 
@@ -271,22 +304,33 @@ def make_es(rec, client_id):
             super().on_request_start()
             self._wire(True)
 
-        def on_request_end(self):
+        def on_request_end(self, failed=False):
             super().on_request_end()
-            self._wire(False)
+            self._wire(False, failed)
 
         async def perform_request(self, method, path, headers=None, body=None, params=None):
             task = rec.tid(asyncio.current_task())
             self.op_of_task[task] = path
             try:
-                for pre, chunks, post in body["wires"]:
+                for w in body["wires"]:
+                    pre, chunks, post = w[0], w[1], w[2]
+                    fail = w[3] if len(w) > 3 else None
                     if pre is not None:
                         await asyncio.sleep(pre)
                     self.on_request_start()
-                    for c in chunks:
-                        if c is not None:
-                            await asyncio.sleep(c)
-                        self.on_request_end()
+                    try:
+                        for c in chunks:
+                            if c is not None:
+                                await asyncio.sleep(c)
+                            self.on_request_end()       # aiohttp: on_response_chunk_received / on_request_end
+                        if fail is not None:
+                            if fail["after"] is not None:
+                                await asyncio.sleep(fail["after"])
+                            raise make_exception(fail["kind"])
+                    except BaseException as ex:
+                        # aiohttp: on_request_exception (also for CancelledError) -> factory.py registers on_request_end for it
+                        self.on_request_end(failed=not isinstance(ex, asyncio.CancelledError))
+                        raise
                     if post is not None:
                         await asyncio.sleep(post)
             finally:
@@ -357,7 +401,7 @@ def span_oracle(ctx, rec, what):
 DELTAS = [Fraction(0), Fraction(0), Fraction(1, 4), Fraction(1, 2), Fraction(1), Fraction(3)]
 
 
-def gen_items(rng, depth, allow_par, p_empty):
+def gen_items(rng, depth, allow_par, p_empty, p_exc=0.0):
     """p_empty > 0 = 'odd' mode: contexts without any wire request, starts without an end, ends without a start"""
     items = []
     for _ in range(rng.choice([1, 1, 2, 2, 3])):
@@ -371,12 +415,13 @@ def gen_items(rng, depth, allow_par, p_empty):
             else:
                 items.append(("end-only",))
         elif r < 0.75:
+            exc = rng.random() < p_exc      # the with-block is left by an exception (failed / cancelled sub-request)
             if rng.random() < p_empty:
-                items.append(("ctx", []))
+                items.append(("ctx", [], exc))
             else:
-                items.append(("ctx", gen_items(rng, depth + 1, allow_par, p_empty)))
+                items.append(("ctx", gen_items(rng, depth + 1, allow_par, p_empty, p_exc), exc))
         elif allow_par:
-            items.append(("par", [gen_items(rng, depth + 1, allow_par, p_empty) for _ in range(rng.choice([2, 2, 3]))]))
+            items.append(("par", [gen_items(rng, depth + 1, allow_par, p_empty, p_exc) for _ in range(rng.choice([2, 2, 3]))]))
         else:
             items.append(("wire", 1))
     return items
@@ -402,7 +447,7 @@ def linearize(rng, clients, structured):
             elif it[0] == "ctx":
                 out.append(("open",))
                 out += compile_items(it[1])
-                out.append(("ev", {"k": "close"}))
+                out.append(("ev", {"k": "close", "exc": bool(it[2]) if len(it) > 2 else False}))
             elif it[0] == "par":
                 out.append(("par", [compile_items(b) for b in it[1]]))
         return out
@@ -472,11 +517,12 @@ def gen_direct(ctx):
         nclients = rng.choice([1, 1, 1, 2, 2, 3])
         allow_par = rng.random() < 0.7
         p_empty = 0.15 if rng.random() < 0.15 else 0.0
+        p_exc = 0.35 if rng.random() < 0.4 else 0.0
         clients = []
         for _ in range(nclients):
             reqs = []
             for _ in range(rng.choice([1, 1, 2])):
-                reqs.append(("ctx", gen_items(rng, 0, allow_par, p_empty)))
+                reqs.append(("ctx", gen_items(rng, 0, allow_par, p_empty, p_exc), False))
             clients.append(reqs)
         evs = stamp(rng, linearize(rng, clients, structured))
         if len(evs) > 120:
@@ -515,6 +561,8 @@ EXH_PROGRAMS = [
     _prog([["open", "ws", "we", "close", "open", "ws", "we", "close"], ["open", "ws", "we", "close"]], False),
     _prog([["open", "open", "ws", "we", "close", "close"], ["ws", "we"]], False),
     _prog([["open", "ws", "we", "close"], ["open", "ws", "we", "close"], ["open", "ws", "we", "close"]], False),
+    _prog([["open", "ws", "we", "closex"], ["open", "ws", "we", "close"]], False),       # closex = exit with an exception
+    _prog([["open", "ws", "we", "closex"], ["open", "ws", "we", "ws", "we", "closex"]], False),
 ]
 
 
@@ -540,6 +588,8 @@ def build_exh(prog, merged):
     k = 0
     for task, kind in merged:
         e = {"k": kind, "task": task}
+        if kind == "closex":
+            e = {"k": "close", "task": task, "exc": True}
         if kind == "open":
             e["ctx"] = nctx
             nctx += 1
@@ -622,7 +672,11 @@ def exec_direct(evs, only_tasks=None):
                     name_of_ctx[m.cid] = e["ctx"]
                     stack.append(m)
                 elif k == "close":
-                    stack.pop().__exit__(None, None, None)
+                    if e.get("exc"):
+                        ex = make_exception("timeout")
+                        stack.pop().__exit__(type(ex), ex, None)
+                    else:
+                        stack.pop().__exit__(None, None, None)
                 elif k == "ws":
                     es.on_request_start()
                 elif k == "we":
@@ -687,6 +741,7 @@ def run_direct(ctx, case):
     ctx.count(f"clients:{nclients}")
     ctx.count(f"spawns:{min(nspawn, 4)}")
     ctx.count(f"events:{len(evs) // 20 * 20}+")
+    ctx.count("exceptional-exits:" + ("yes" if any(e.get("exc") for e in evs) else "no"))
     if "err" in m:
         if m["err"] not in errors:
             ctx.diff("direct: model predicts an exception the code does not raise", m["err"], errors)
@@ -737,7 +792,7 @@ DUR = [None, 0.25, 0.25, 0.5, 0.5, 1.0, 1.0, 2.0, 3.0]   # None = no await at al
 PRE = [None, None, 0.25, 0.5, 1.0, 2.0]
 
 
-def gen_op(rng, names):
+def gen_op(rng, names, p_fail=0.0):
     name = f"op{len(names)}"
     names.append(name)
     if rng.random() < 0.2:
@@ -746,29 +801,36 @@ def gen_op(rng, names):
     for _ in range(rng.choice([1, 1, 1, 2, 3])):
         chunks = [rng.choice(DUR) for _ in range(rng.choice([1, 1, 1, 2, 3]))]
         wires.append([rng.choice(PRE), chunks, rng.choice(PRE)])
+        if rng.random() < p_fail:
+            # this wire request fails (time-out / ApiError / TransportError): possibly after some chunks of a response,
+            # `after` later; the exception hook records the end; nothing follows in this operation
+            kind = rng.choice(FAIL_KINDS)
+            wires[-1][1] = [] if kind == "timeout" or rng.random() < 0.5 else chunks[:1]
+            wires[-1].append({"kind": kind, "after": rng.choice([None, 0.25, 0.5, 1.0, 2.0])})
+            break
     return {"operation-type": "raw-request", "name": name, "path": "/" + name, "body": {"wires": wires}}
 
 
-def gen_stream(rng, depth, names, p_stream):
+def gen_stream(rng, depth, names, p_stream, p_fail=0.0):
     items = []
     for _ in range(rng.choice([1, 2, 2, 3])):
         if depth < 3 and rng.random() < p_stream:
-            items.append({"stream": gen_stream(rng, depth + 1, names, p_stream * 0.7)})
+            items.append({"stream": gen_stream(rng, depth + 1, names, p_stream * 0.7, p_fail)})
         else:
-            items.append(gen_op(rng, names))
+            items.append(gen_op(rng, names, p_fail))
     return items
 
 
-def gen_request(rng, names, p_composite=0.8):
+def gen_request(rng, names, p_composite=0.8, p_fail=0.0):
     r = rng.random()
     if r < p_composite:
         p_stream = rng.choice([0.0, 0.5, 0.7])
-        params = {"name": f"req{len(names)}", "requests": gen_stream(rng, 0, names, p_stream)}
+        params = {"name": f"req{len(names)}", "requests": gen_stream(rng, 0, names, p_stream, p_fail)}
         if rng.random() < 0.3:
             params["max-connections"] = rng.choice([1, 2])
         names.append(params["name"])
         return {"type": "composite", "params": params}
-    op = gen_op(rng, names)
+    op = gen_op(rng, names, p_fail)
     return {"type": op.pop("operation-type"), "params": op}
 
 
@@ -777,10 +839,12 @@ def gen_client(rng, cid, nreq):
     reqs = []
     sched = 0.0
     throttled = rng.random() < 0.3
+    # 40% of the clients see failing wire requests (on-error=continue): at any position of a composite, in any stream
+    p_fail = rng.choice([0.15, 0.3]) if rng.random() < 0.4 else 0.0
     for _ in range(nreq):
         if throttled:
             sched += rng.choice([0.5, 1.0, 4.0])
-        reqs.append(dict(gen_request(rng, names), at=sched if throttled else 0))
+        reqs.append(dict(gen_request(rng, names, p_fail=p_fail), at=sched if throttled else 0))
     return {"id": cid, "ramp": rng.choice([None, None, 0.25, 0.5, 1.0, 1.5]), "requests": reqs}
 
 
@@ -844,9 +908,15 @@ def exec_clients(clients):
             ess[cl["id"]] = es
             op = types.SimpleNamespace(name=f"task{cl['id']}", type="composite", meta_data={})
             task = types.SimpleNamespace(name=f"task{cl['id']}", operation=op, meta_data={}, any_completes_parent=False, completes_parent=False)
-            ex = driver.AsyncExecutor(cl["id"], task, Sched(es, cl), {"default": es}, sampler, Flag(), Flag(), "abort")
+            ex = driver.AsyncExecutor(cl["id"], task, Sched(es, cl), {"default": es}, sampler, Flag(), Flag(), "continue")
             aws.append(ex())
-        await asyncio.gather(*aws)
+        try:
+            await asyncio.gather(*aws)
+        finally:
+            # streams of a composite whose sibling failed are not awaited by the code (some are cancelled, some simply keep
+            # running and even create further stream tasks): let all of them finish before the loop is closed
+            while any(not t.done() for t in rec.task_objs):
+                await asyncio.gather(*[t for t in rec.task_objs if not t.done()], return_exceptions=True)
 
     try:
         run_loop(main)
@@ -858,7 +928,8 @@ def exec_clients(clients):
     for s in sampler.samples:
         deps = [{"op": d.operation_name, "type": d.operation_type, "start": q(d.request_start), "svc": q(d.service_time)} for d in s.dependent_timings]
         samples.append({"client": s.client_id, "start": q(s.request_start), "svc": q(s.service_time), "latency": q(s.latency),
-                        "period": q(s.time_period), "deps": deps})
+                        "period": q(s.time_period), "deps": deps, "success": bool(s.request_meta_data.get("success")),
+                        "error-type": s.request_meta_data.get("error-type"), "ops": s.total_ops})
     return rec, samples
 
 
@@ -897,33 +968,52 @@ def check_against_model(ctx, what, rec, samples, clients):
                 ctx.diff(f"{what}: sample of top-level context {c}", exp, got)
             subs = sorted(([reads[d]["start"], reads[d]["svc"]] for d in range(len(rec.mgrs)) if rec.parent[d] == c), key=str)
             deps = sorted(([d["start"], d["svc"]] for d in s["deps"]), key=str)
+            if not s["success"]:
+                subs = []       # a failed composite raises: its dependent timings are dropped by design
             if subs != deps:
                 ctx.diff(f"{what}: dependent timings under top-level context {c}", subs, deps)
     return m
 
 
 def sample_oracle(ctx, what, rec, samples, clients):
-    """endpoint log vs samples: request_start = earliest wire start, service_time = latest end - earliest start of all
-    wire requests of the logical request; each dependent timing covers exactly its own wire requests"""
+    """endpoint log vs samples: request_start = earliest wire start, service_time = latest end - earliest start of ALL
+    wire requests issued on behalf of the logical request until it was recorded - failed ones included; a request with
+    a failed wire request is a failed sample; each dependent timing covers exactly its own wire requests"""
     cls_seen = None
-    per_client = {}
-    for s in samples:
-        per_client.setdefault(s["client"], []).append(s)
-    for cl in clients:
-        ss = per_client.get(cl["id"], [])
-        if len(ss) != len(cl["requests"]):
-            ctx.fail("missing-sample", f"{what}: client {cl['id']} produced {len(ss)} samples for {len(cl['requests'])} requests")
+    n = len(rec.mgrs)
+    client_tasks = [e["task"] for e in rec.events if e["k"] == "client"]
+    for cl, t in zip(clients, client_tasks):
+        ss = [s for s in samples if s["client"] == cl["id"]]
+        tops = [c for c in range(n) if rec.parent[c] is None and rec.opener[c] == t]
+        if len(ss) != len(cl["requests"]) or len(tops) != len(ss):
+            ctx.fail("missing-sample", f"{what}: client {cl['id']} produced {len(ss)} samples / {len(tops)} contexts for {len(cl['requests'])} requests")
             continue
-        for i, (s, r) in enumerate(zip(ss, cl["requests"])):
-            ws = [w for w in rec.wires if w["client"] == cl["id"] and w["req"] == i]
-            st = min((w["t"] for w in ws if w["start"]), default=None)
-            en = max((w["t"] for w in ws if not w["start"]), default=None)
-            exp = {"start": q(st), "svc": None if st is None or en is None else q(float(en) - float(st))}
+        for i, (s, r, c) in enumerate(zip(ss, cl["requests"], tops)):
+            cut = rec.close_idx.get(c, len(rec.events))
+            ws = [w for w in rec.wires if w["cur"] is not None and c in rec.ancestors(w["cur"]) and w["idx"] < cut]
+
+            def span(lst):
+                st = min((w["t"] for w in lst if w["start"]), default=None)
+                en = max((w["t"] for w in lst if not w["start"]), default=None)
+                return {"start": q(st), "svc": None if st is None or en is None else q(float(en) - float(st))}
+
+            exp = span(ws)
             got = {"start": s["start"], "svc": s["svc"]}
             if exp != got:
-                conc = len({w["task"] for w in ws}) > 1
-                cls_seen = CLS_CONC if conc else CLS_SEQ
+                # wire requests of sub-requests that were still running when the request was recorded (streams cancelled
+                # because a sibling failed; the code does not wait for them)
+                done = [w for w in ws if all(rec.close_idx.get(a, len(rec.events)) < cut for a in rec.ancestors(w["cur"]) if a != c)]
+                if not s["success"] and span(done) == got:
+                    cls_seen = CLS_INFLIGHT
+                else:
+                    cls_seen = CLS_CONC if len({w["task"] for w in ws}) > 1 else CLS_SEQ
                 ctx.fail(cls_seen, f"{what}: sample {i} of client {cl['id']} is not (earliest start, latest end - earliest start) of its wire requests", exp, got)
+            failed = any(w["failed"] for w in ws)
+            if s["success"] == failed:
+                ctx.fail("success-flag", f"{what}: sample {i} of client {cl['id']}: success={s['success']} although a wire request " + ("failed" if failed else "did not fail"), not failed, s["success"])
+            if failed:
+                ctx.count("requests-with-a-failed-wire-request")
+                continue
             # sub-requests
             exp_named = {}
             anon = {}
@@ -933,20 +1023,11 @@ def sample_oracle(ctx, what, rec, samples, clients):
                 else:
                     anon.setdefault((w["task"], w["cur"]), []).append(w)
             if r["type"] == "composite":
-                exp_list = []
-                for name, lst in exp_named.items():
-                    a = min((w["t"] for w in lst if w["start"]), default=None)
-                    b = max((w["t"] for w in lst if not w["start"]), default=None)
-                    exp_list.append([name, q(a), None if a is None or b is None else q(float(b) - float(a))])
+                exp_list = [[name] + list(span(lst).values()) for name, lst in exp_named.items()]
                 got_named = [[d["op"], d["start"], d["svc"]] for d in s["deps"] if d["type"] == "raw-request"]
                 if sorted(exp_list, key=str) != sorted(got_named, key=str):
                     ctx.fail(CLS_SUB, f"{what}: dependent timings of raw-request sub-requests differ from the endpoint's log (sample {i}, client {cl['id']})", sorted(exp_list, key=str), sorted(got_named, key=str))
-                exp_anon = []
-                for lst in anon.values():
-                    a = min((w["t"] for w in lst if w["start"]), default=None)
-                    b = max((w["t"] for w in lst if not w["start"]), default=None)
-                    exp_anon.append([q(a), None if a is None or b is None else q(float(b) - float(a))])
-                exp_anon.sort(key=str)
+                exp_anon = sorted((list(span(lst).values()) for lst in anon.values()), key=str)
                 got_anon = sorted(([d["start"], d["svc"]] for d in s["deps"] if d["type"] == "sleep"), key=str)
                 if exp_anon != got_anon:
                     ctx.fail(CLS_SUB, f"{what}: dependent timings of sleep sub-requests differ from the endpoint's log (sample {i}, client {cl['id']})", exp_anon, got_anon)
